@@ -218,7 +218,87 @@ def monitors(case, real, want):
             a, b = parse_line(real[i]), parse_line(real[i + 1])
             if set(a["listing"]) & set(b["listing"]):
                 out.append(("C17", "redo-targets and redo-sources both list %r" % sorted(set(a["listing"]) & set(b["listing"])), i))
+    if want & {"C02", "C03"}:
+        out += overbuild_monitor(case, real)
     return [x for x in out if x[0] in want or x[0] == "C09"]
+
+
+def full_closure(case, fs, progs, t):
+    """Everything a build of `t` may look at, by the scripts currently in place: targets and sources it (transitively)
+    declares, the .do candidates of every target on the way, and the paths watched with redo-ifcreate / conditionals.
+    Returns (files, targets, has_always)."""
+    files, targets, always = set(), set(), False
+    todo = [t]
+    while todo:
+        x = todo.pop()
+        if x in files:
+            continue
+        files.add(x)
+        if x in case.rules:
+            targets.add(x)
+            files.update(case.rules[x])
+            do = next((c for c in case.rules[x] if fs.get(c) is not None), None)
+            if do is not None and fs[do].isdigit():
+                sc = progs.get((int(fs[do]) - 3) // 2, {})
+                always = always or bool(sc.get("always"))
+                todo += [y for c in sc.get("ifchange", []) for y in c] + list(sc.get("cond", [])) + list(sc.get("ifcreate", []))
+    return files, targets, always
+
+
+def overbuild_monitor(case, real):
+    """C02 ('only if' direction) and C03 (cut-off), decided without the model: a target whose script runs in a
+    `redo-ifchange` although, since its last successful build, the user touched nothing in its closure, no other
+    member of its closure was rebuilt, and it declares no redo-always.  If the only closure members rebuilt since are
+    checksummed targets whose content did not change, it is a cut-off failure (C03).  Conservative: any doubt -> silent."""
+    out = []
+    progs, last_touched, last_ok, ran_at, snaps = {}, {}, {}, {}, []
+    for i, (o, l) in enumerate(zip(case.ops, real)):
+        s = parse_line(l)
+        snaps.append(s)
+        k = o[0]
+        if k == "p":
+            progs[o[1]] = o[2]
+        elif k in ("w", "wp", "r", "h", "u", "m"):
+            last_touched[o[1]] = i
+        elif k == "crash":
+            last_ok.clear()
+        elif k in ("redo", "ifc"):
+            ran = [int(x) for x in s["ran"] if x.isdigit()]
+            forced = set(o[1]) if k == "redo" else set()
+            before = snaps[i - 1]["fs"] if i else {}
+            for D in ran:
+                j = last_ok.get(D)
+                if j is None or D in forced or ran.count(D) != 1 or before.get(D) is None:
+                    continue
+                files, targets, always = full_closure(case, before, progs, D)
+                if always or any(last_touched.get(x, -1) > j for x in files):
+                    continue
+                others = [E for E in targets if E != D and any(j < kk <= i for kk in ran_at.get(E, []) + ([i] if E in ran else []))]
+                if not others:
+                    out.append(("C02", "target %s (%s) was rebuilt by %r although nothing in its closure was touched or rebuilt since its last successful build (op %d)" % (D, case.names[D], o, j), i))
+                    continue
+                def stamped_same(E):
+                    do = next((c for c in case.rules[E] if before.get(c) is not None), None)
+                    sc = progs.get((int(before[do]) - 3) // 2, {}) if do is not None and before[do].isdigit() else {}
+                    return sc.get("stamp") == 1 and snaps[j]["fs"].get(E) is not None and snaps[j]["fs"].get(E) == s["fs"].get(E)
+                # every rebuilt closure member is either checksummed with unchanged content, or depends only on such ones
+                def quiet(E, seen=()):
+                    if E in seen:
+                        return False
+                    if stamped_same(E):
+                        return True
+                    _, tg, _ = full_closure(case, before, progs, E)
+                    sub = [x for x in tg if x != E and x in others]
+                    return False if not sub else False
+                if all(stamped_same(E) for E in others):
+                    out.append(("C03", "target %s (%s) was rebuilt by %r although the only members of its closure rebuilt since op %d are checksummed targets whose content did not change: %s" % (D, case.names[D], o, j, sorted(others)), i))
+            for D in set(ran):
+                ran_at.setdefault(D, []).append(i)
+                if s["rv"] == 0:
+                    last_ok[D] = i
+                else:
+                    last_ok.pop(D, None)
+    return out
 
 
 # ----------------------------------------------------------------------------- the check
